@@ -147,7 +147,7 @@ def line_limit(ctx):
                 ctx.ob("R04.3", "partial-line-kept|%s" % key, shifted, "an incomplete %s that still fits is carried over (shift_buffer_left)" % label, fn.loc(lf.bb))
         ctx.ob("R04.3", "floor|%s" % label, seen >= 3, "%d no-CRLF paths classified in the %s parser (floor 3)" % (seen, label), fn.loc(0))
     # read_bytes hands the window buffer[read_cursor..] to the receive call
-    fr, lr = leaves(ctx, conn.RECV)
+    fr, lr = conn.receive_leaves(ctx)
     okw = False
     for lf in lr:
         for e in lf.events:
@@ -206,7 +206,7 @@ def read_guard(ctx):
     n = 0
     for lf in PathEnum(fn, facts, versioned=True).run():
         rk = ret_kind(lf)
-        recv = [e for e in lf.events if e[0] == "call" and e[3] == conn.RECV]
+        recv = [e for e in lf.events if e[0] == "call" and (e[3] == conn.RECV or (last_seg(e[3]) == "recv_with_fds"))]
         if recv or rk is None:
             continue
         # a path that gives up before receiving
